@@ -16,7 +16,7 @@ A_TOK = ['\\begin{e}', '\\end{e}', '\\begin{f}', '\\end{f}', '\\begin{verbatim}'
          ' ', 'a', '.', '(', '|', '\\left', '\\left(', '\\big.', '\\cup', '\\textbf{', '\\label{', '\\section{',
          '\\def\\x{', '\\newcommand', '\\begin', '\\end',
          # environment names that are not a single word
-         '\\begin{ }', '\\end{ }', '\\begin{\\a }', '\\end{\\a }', '\r', '\\section{a}[b]']
+         '\\begin{ }', '\\end{ }', '\\begin{\\a }', '\\end{\\a }', '\r', '\\section{a}[b]', '\\def{x}{']
 A_TOK_CORE = ['\\begin{e}', '\\end{e}', '\\end{f}', '\\begin{verbatim}', '\\end{verbatim}', '\\begin{equation}',
               '\\begin{itemize}', '\\end{itemize}', '\\item', '\\x', '\\x{', '\\x[', '{', '}', '[', ']', '$', '$$',
               '\\(', '\\]', '\\\\', '%', '\n', ' ', 'a', '\\left(', '\\textbf{', '\\newcommand', '\\begin', '\\end', '\r',
@@ -91,7 +91,8 @@ DELIMS = ('\\langle', '\\rangle', '\\lfloor', '\\rfloor', '\\lceil', '\\rceil', 
           '\\lbrack', '\\rbrack', '\\{', '\\}', '(', ')', '<', '>', '[', ']', '{', '}', '.', '|')
 _RE_BRACE_NEXT = re.compile(_SPACER + r'\{')
 _RE_SECTION = re.compile(r'(' + _SPACER + r'\[[^\[\]{}\\%$]*\])?' + _SPACER + r'\{')
-_RE_DEF = re.compile(_SPACER + r'(\\[A-Za-z]+' + _SPACER + r'\{|\{[^\[\]{}\\%$]*\}' + _SPACER + r'\{)')
+# \def: both mandatory arguments brace-delimited (the usual \def\name{..} has a bare first argument: declined)
+_RE_DEF = re.compile(_SPACER + r'\{[^\[\]{}\\%$]*\}' + _SPACER + r'\{')
 
 
 def side_conditions(s, sizing=False):
